@@ -93,13 +93,19 @@ func init() {
 			if through == "<recv>" {
 				through = RecvName(fd)
 			}
+			if through == "<param0>" && fd != nil && fd.Type.Params != nil && len(fd.Type.Params.List) > 0 && len(fd.Type.Params.List[0].Names) > 0 {
+				through = fd.Type.Params.List[0].Names[0].Name // the Pack handed to the consumer; aliases (p2 := p.(*T)) are followed
+			}
 			e.P("/-- %s: %s.%s — writes through `%s` -/", file, recv, fn, through)
 			e.P("def %s : List String := %s", lean, LeanStrList(Mutations(fd, through)))
 		}
 		mut("mutPacketWrite", "av/format/rtp/packet.go", "Packet", "Write", "<recv>")
-		mut("mutTcpConsume", "service/rtsp/session_roles.go", "tcpConsumer", "Consume", "p2")
-		mut("mutUdpConsume", "service/rtsp/session_roles.go", "udpConsumer", "Consume", "p2")
-		mut("mutWspConsume", "service/wsp/session.go", "Session", "Consume", "p2")
+		mut("mutTcpConsume", "service/rtsp/session_roles.go", "tcpConsumer", "Consume", "<param0>")
+		mut("mutUdpConsume", "service/rtsp/session_roles.go", "udpConsumer", "Consume", "<param0>")
+		mut("mutWspConsume", "service/wsp/session.go", "Session", "Consume", "<param0>")
+		mut("mutMulticastConsume", "service/rtsp/multicast_proxy.go", "multicastProxy", "Consume", "<param0>")
+		mut("mutHttpFlvConsume", "service/flv/httpflv.go", "httpFlvConsumer", "Consume", "<param0>")
+		mut("mutWsFlvConsume", "service/flv/wsflv.go", "wsFlvConsumer", "Consume", "<param0>")
 		mut("mutFlvWriteTag", "av/format/flv/flv.go", "Writer", "WriteFlvTag", "tag")
 		mut("mutFlvWriteTagFn", "av/format/flv/tag.go", "", "writeTag", "tag")
 		// per-protocol connection counters of the service entry points (C03)
